@@ -145,7 +145,7 @@ func Gen(t *rapid.T) *Case {
 		case "decobj":
 			n := rapid.IntRange(2, 5).Draw(t, "nstreams")
 			for k := 0; k < n; k++ {
-				a.Streams = append(a.Streams, fmt.Sprintf("%s:%d", rapid.SampledFrom([]string{"plain", "mct", "nomct", "roi", "part2"}).Draw(t, "skind"), rapid.IntRange(0, np-1).Draw(t, "sidx")))
+				a.Streams = append(a.Streams, fmt.Sprintf("%s:%d", rapid.SampledFrom([]string{"plain", "mct", "nomct", "roi", "part2", "depth", "depth", "size", "comps", "lossy", "tiles"}).Draw(t, "skind"), rapid.IntRange(0, np-1).Draw(t, "sidx")))
 			}
 		default:
 			a.Seq = genSeq(t, np)
@@ -253,6 +253,44 @@ func (e *env) j2kParams(kind string) *jpeg2000.EncodeParams {
 		}
 	}
 	return p
+}
+
+// j2kStream builds a codestream for the reused-Decoder action. The kinds "depth", "size",
+// "comps", "lossy" and "tiles" describe an unrelated image (other precision / geometry /
+// component count / transform / tiling) so that state carried over from it would show.
+func (e *env) j2kStream(kind string, idx int) ([]byte, error) {
+	c := e.c
+	f := c.Pool[idx]
+	w, h, comps, depth, signed := c.W, c.H, c.SPP, c.BS, c.Signed
+	switch kind {
+	case "depth":
+		if depth > 8 {
+			depth = 5
+		} else {
+			depth = 16
+		}
+	case "size":
+		w, h = c.H+3, c.W+1
+	case "comps":
+		comps = 4 - c.SPP // 1 <-> 3
+		signed = !signed
+	}
+	if kind != "depth" && kind != "size" && kind != "comps" && kind != "lossy" && kind != "tiles" {
+		return jpeg2000.NewEncoder(e.j2kParams(kind)).Encode(e.j2kFrame(idx))
+	}
+	im := &gen.Image{W: w, H: h, C: comps, P: depth, Signed: signed, Class: f.Class, Seed: f.Seed}
+	p := jpeg2000.DefaultEncodeParams(w, h, comps, depth, signed)
+	p.NumLevels = 2
+	if kind == "lossy" {
+		p.Lossless, p.Quality = false, 70
+		if depth < 8 {
+			return jpeg2000.NewEncoder(e.j2kParams("plain")).Encode(e.j2kFrame(idx))
+		}
+	}
+	if kind == "tiles" {
+		p.TileWidth, p.TileHeight, p.NumLevels = 8, 8, 1
+	}
+	return jpeg2000.NewEncoder(p).Encode(im.Bytes())
 }
 
 // j2kFrame: the J2K object-level API uses the BitsStored-sized container.
@@ -432,7 +470,7 @@ func Check(c *Case) (o core.Outcome) {
 				if idx >= len(c.Pool) {
 					idx = 0
 				}
-				stream, err := jpeg2000.NewEncoder(e.j2kParams(kind)).Encode(e.j2kFrame(idx))
+				stream, err := e.j2kStream(kind, idx)
 				if err != nil {
 					o.Fail = core.Failf("encode-error", "action %d: building %s stream: %v", ai, spec, err)
 					return
@@ -448,7 +486,8 @@ func Check(c *Case) (o core.Outcome) {
 				if ferr != nil {
 					continue
 				}
-				if !bytes.Equal(obj.GetPixelData(), fresh.GetPixelData()) || obj.Width() != fresh.Width() || obj.Components() != fresh.Components() || obj.BitDepth() != fresh.BitDepth() {
+				if !bytes.Equal(obj.GetPixelData(), fresh.GetPixelData()) || obj.Width() != fresh.Width() || obj.Height() != fresh.Height() ||
+					obj.Components() != fresh.Components() || obj.BitDepth() != fresh.BitDepth() || obj.IsSigned() != fresh.IsSigned() {
 					o.Fail = core.Failf("object-state", "action %d: stream %d (%s) decoded on a reused jpeg2000.Decoder differs from a fresh Decoder (history %v)", ai, k, spec, a.Streams[:k+1])
 					return
 				}
